@@ -29,6 +29,7 @@ def harness(ctx, index, cls, prefix):
   ip.label_prefix = prefix
   ip.ext[('float', 'Atom')] = float_of_atom
   ip.ext['str_format'] = lambda ip2, fmt, args: 'text'
+  ip.ext['eval_log_args'] = True
   ip.ext['repr_of'] = lambda ip2, v: Text(z3.Function('repr_text', Atom, Atom)(v.atom if isinstance(v, Text) else ip2.atom('x')))
 
   def isinst(ip2, v, c):
@@ -161,7 +162,7 @@ def u_datagram_received(ctx, index):
                         z3.And(FLOAT_OK(FIELD(t, z3.IntVal(1))), FLOAT_KIND(FIELD(t, z3.IntVal(1))) == 1))
       ctx.check('C11/datagramReceived/malformed_line_is_skipped', z3.Implies(malformed, z3.BoolVal(len(evs) == 0)))
   h.ip.loops[(Q, 0)] = LoopSpec('for line in ', inv, havoc, ghost_step=step,
-                                locals_modified=['line', 'metric', 'value', 'timestamp', 'datapoint'])
+                                locals_modified=[])
   raised = None
   addr = (ctx.fresh(Atom, 'host'), ctx.fresh(z3.IntSort(), 'port'))
   try:
@@ -211,7 +212,7 @@ def u_string_received(ctx, index):
       malformed = z3.Or(z3.Not(shape), OBJ_FLOAT_KIND(a) != 0, OBJ_FLOAT_KIND(b) == 1)
       ctx.check('C11/stringReceived/malformed_entry_is_skipped', z3.Implies(malformed, z3.BoolVal(len(evs) == 0)))
   h.ip.loops[(Q, 0)] = LoopSpec('for raw in ', inv, havoc, ghost_step=step,
-                                locals_modified=['raw', 'metric', 'value', 'timestamp', 'datapoint', 'e'])
+                                locals_modified=[])
   raised = None
   try:
     h.ip.run(Q, [BytesVal(ctx.fresh(Bytes, 'frame'))], self_obj=h.receiver)
@@ -288,7 +289,7 @@ def u_event_call(ctx, index):
       ctx.check('C01/Event.__call__/called_in_order_with_the_same_arguments',
                 z3.And(f == handlers.term[k], a0 == m, a1 == dp))
   ip.loops[('carbon.events:Event.__call__', 0)] = LoopSpec('for handler in self.handlers', inv, havoc, ghost_step=step,
-                                                          locals_modified=['handler'])
+                                                          locals_modified=[])
   raised = None
   try:
     ip.run('carbon.events:Event.__call__', [m, dp], self_obj=ev)
